@@ -20,6 +20,56 @@ pub static LIVE_BLOCKS: AtomicI64 = AtomicI64::new(0);
 /// kept alive (address perturbation for C17); leaked on purpose, not counted.
 pub static PAD: AtomicU64 = AtomicU64::new(0);
 
+/// when set, live blocks are tracked in `LIVE_TABLE` and freed blocks are poisoned and never reused
+/// (quarantine): a dangling pointer then always points at poisoned, recognisably dead memory
+pub static TRACK: AtomicU64 = AtomicU64::new(0);
+const TABLE_BITS: usize = 20;
+static LIVE_TABLE: [std::sync::atomic::AtomicUsize; 1 << TABLE_BITS] =
+    [const { std::sync::atomic::AtomicUsize::new(0) }; 1 << TABLE_BITS];
+
+fn slot(addr: usize) -> usize {
+    (addr >> 3).wrapping_mul(0x9E37_79B9_7F4A_7C15) >> (64 - TABLE_BITS)
+}
+fn table_insert(addr: usize) {
+    let mut i = slot(addr);
+    loop {
+        let cur = LIVE_TABLE[i].load(Ordering::Relaxed);
+        if cur == 0 || cur == 1 {
+            LIVE_TABLE[i].store(addr, Ordering::Relaxed);
+            return;
+        }
+        i = (i + 1) & ((1 << TABLE_BITS) - 1);
+    }
+}
+fn table_remove(addr: usize) {
+    let mut i = slot(addr);
+    loop {
+        let cur = LIVE_TABLE[i].load(Ordering::Relaxed);
+        if cur == addr {
+            LIVE_TABLE[i].store(1, Ordering::Relaxed);
+            return;
+        }
+        if cur == 0 {
+            return;
+        }
+        i = (i + 1) & ((1 << TABLE_BITS) - 1);
+    }
+}
+/// is `addr` the start of a block that is currently allocated (only meaningful while TRACK is set)
+pub fn is_live_block(addr: usize) -> bool {
+    let mut i = slot(addr);
+    loop {
+        let cur = LIVE_TABLE[i].load(Ordering::Relaxed);
+        if cur == addr {
+            return true;
+        }
+        if cur == 0 {
+            return false;
+        }
+        i = (i + 1) & ((1 << TABLE_BITS) - 1);
+    }
+}
+
 unsafe impl GlobalAlloc for CountingAlloc {
     unsafe fn alloc(&self, layout: Layout) -> *mut u8 {
         let pad = PAD.load(Ordering::Relaxed);
@@ -30,6 +80,9 @@ unsafe impl GlobalAlloc for CountingAlloc {
         if !p.is_null() {
             LIVE_BYTES.fetch_add(layout.size() as i64, Ordering::Relaxed);
             LIVE_BLOCKS.fetch_add(1, Ordering::Relaxed);
+            if TRACK.load(Ordering::Relaxed) != 0 {
+                table_insert(p as usize);
+            }
         }
         p
     }
@@ -38,9 +91,23 @@ unsafe impl GlobalAlloc for CountingAlloc {
         std::ptr::write_bytes(ptr, 0xDD, layout.size());
         LIVE_BYTES.fetch_sub(layout.size() as i64, Ordering::Relaxed);
         LIVE_BLOCKS.fetch_sub(1, Ordering::Relaxed);
+        if TRACK.load(Ordering::Relaxed) != 0 {
+            table_remove(ptr as usize);
+            return; // quarantine: never hand the block out again
+        }
         System.dealloc(ptr, layout)
     }
     unsafe fn realloc(&self, ptr: *mut u8, layout: Layout, new_size: usize) -> *mut u8 {
+        if TRACK.load(Ordering::Relaxed) != 0 {
+            // allocate-copy-free so that the quarantine also covers reallocation
+            let new_layout = Layout::from_size_align_unchecked(new_size, layout.align());
+            let p = self.alloc(new_layout);
+            if !p.is_null() {
+                std::ptr::copy_nonoverlapping(ptr, p, layout.size().min(new_size));
+                self.dealloc(ptr, layout);
+            }
+            return p;
+        }
         let p = System.realloc(ptr, layout, new_size);
         if !p.is_null() {
             LIVE_BYTES.fetch_add(new_size as i64 - layout.size() as i64, Ordering::Relaxed);
@@ -464,4 +531,125 @@ pub fn hex_bytes(b: &[u8]) -> String {
 pub fn hex_words(w: &[u64]) -> String {
     let parts: Vec<String> = w.iter().map(|x| format!("{:016x}", x)).collect();
     parts.join(".")
+}
+
+// ---------------------------------------------------------------------------------------------
+// fault injection (C18): every call into user code ticks a counter; the TARGET-th call panics
+// ---------------------------------------------------------------------------------------------
+
+thread_local! {
+    pub static TICKS: Cell<u64> = const { Cell::new(0) };
+    pub static TARGET: Cell<u64> = const { Cell::new(0) };
+    pub static FIRED: Cell<Option<&'static str>> = const { Cell::new(None) };
+}
+
+pub fn tick(site: &'static str) {
+    if !IN_CALL.with(|c| c.get()) {
+        return; // only calls made BY the library count
+    }
+    let t = TICKS.with(|c| {
+        c.set(c.get() + 1);
+        c.get()
+    });
+    if t == TARGET.with(|c| c.get()) && !std::thread::panicking() {
+        FIRED.with(|f| f.set(Some(site)));
+        panic!("injected panic in {}", site);
+    }
+}
+
+/// key whose Hash / Eq / Clone / Drop are fault-injection sites
+#[derive(Debug)]
+pub struct FK {
+    pub n: u64,
+    serial: u64,
+}
+impl FK {
+    pub fn probe(n: u64) -> Self {
+        FK { n, serial: 0 }
+    }
+}
+impl Clone for FK {
+    fn clone(&self) -> Self {
+        tick("Clone for key");
+        FK { n: self.n, serial: new_serial() }
+    }
+}
+impl Drop for FK {
+    fn drop(&mut self) {
+        note_drop(true, self.n, self.serial);
+        if self.serial != 0 {
+            tick("Drop for key");
+        }
+    }
+}
+impl PartialEq for FK {
+    fn eq(&self, o: &Self) -> bool {
+        tick("Eq for key");
+        self.n == o.n
+    }
+}
+impl Eq for FK {}
+impl Hash for FK {
+    fn hash<H: Hasher>(&self, h: &mut H) {
+        tick("Hash for key");
+        h.write_u64(self.n)
+    }
+}
+impl KeyKind for FK {
+    type Q = FK;
+    const TRACKED: bool = true;
+    fn mk(n: u64) -> Self {
+        FK { n, serial: new_serial() }
+    }
+    fn num(&self) -> u64 {
+        self.n
+    }
+    fn with_q<R>(n: u64, f: impl FnOnce(&FK) -> R) -> R {
+        let t = FK::probe(n);
+        f(&t)
+    }
+}
+
+/// value whose Clone / Drop are fault-injection sites
+#[derive(Debug)]
+pub struct FV {
+    pub n: u64,
+    serial: u64,
+}
+impl FV {
+    pub fn new(n: u64) -> Self {
+        FV { n, serial: new_serial() }
+    }
+}
+impl Clone for FV {
+    fn clone(&self) -> Self {
+        tick("Clone for value");
+        FV::new(self.n)
+    }
+}
+impl Drop for FV {
+    fn drop(&mut self) {
+        note_drop(false, self.n, self.serial);
+        tick("Drop for value");
+    }
+}
+
+/// BuildHasher whose `build_hasher` is a fault-injection site
+#[derive(Clone, Default)]
+pub struct FH;
+impl BuildHasher for FH {
+    type Hasher = VHasher;
+    fn build_hasher(&self) -> VHasher {
+        tick("BuildHasher::build_hasher");
+        VHasher::Fnv(0xcbf29ce484222325)
+    }
+}
+
+/// callback that is a fault-injection site
+#[derive(Clone, Default)]
+pub struct FCb;
+impl caches::OnEvictCallback for FCb {
+    fn on_evict<K, V>(&self, _key: &K, _val: &V) {
+        tick("eviction callback");
+    }
 }
